@@ -7,7 +7,10 @@ def judge(pid, module, rec_path):
     r = V.tlc_trace(module, module, rec_path)
     if r['accepted'] is None:
         raise V.ToolError('%s: record file not fully judged (stopped at %s)' % (module, r['rejected']))
+    DIVERGED[:] = DIVERGED + [(what, rid) for (what, rid, ln) in r.get('diverged', [])]
     return [(inv, rid) for (inv, rid, ln) in r['violations']], r['accepted']
+
+DIVERGED = []     # records on which the implementation differs from the model although the property holds (filled by judge)
 
 def save_record(pid, rec_path, rid):
     os.makedirs(V.ROOT + '/evidence/replays', exist_ok=True)
@@ -65,11 +68,12 @@ def run_sat(pid, tier, seed, mcs, runs, module, nontrivial, assumptions, extra_c
     for (inv, rid, dest) in viols:
         if any(k.get('record') == rid for k in known): print('KNOWN-FINDING: property=%s record %s' % (pid, rid))
         else: unknown.append((inv, rid, dest))
+    for (what, rid) in DIVERGED[:20]: print('DIVERGENCE record=%s model=%s (the implementation no longer computes what the specification says; no property predicate fails on it)' % (rid, what))
     for d in core_divs: print('DIVERGENCE scenario=%s line=%d observed_property_failures=%s' % (d['scenario'], d['line'], d['observed_property_failures']))
     cov = {'states': max(states, 1), 'transitions': max(transitions, 1), 'traces_validated_against_impl': total,
            'samples': samples or [{'note': 'none'}], 'evaluations': total, 'distinct_nontrivial': len(nt),
            'rule': 'every record is one call of the real component on an enumerated or random input, judged by TLC with the oracle of %s.tla; distinct_nontrivial counts distinct records accepted by the rule given in the check (see DESIGN)' % module,
-           'mc_configs': mc_results, 'record_sets': info, 'core_events_validated': core_events, 'exhaustive': False}
+           'mc_configs': mc_results, 'record_sets': info, 'records_diverging_from_model': len(DIVERGED), 'core_events_validated': core_events, 'exhaustive': False}
     V.write_evidence(pid, tier, seed, 'model_checking', cov, assumptions, time.time() - t0, len(unknown))
     if total == 0: raise V.ToolError('vacuous run')
     for (inv, rid, dest) in unknown[:10]:
@@ -106,6 +110,17 @@ def c16(tier, seed):
         ['the bincode wire format itself is not modelled; state files are produced by ruler\'s own writer'],
         extra_core=[('core', 120, 1500)])
 
+def c15(tier, seed):
+    th = '1' if tier == 'thorough' else '0'
+    return run_sat('C15', tier, seed,
+        lambda t: [('MC_base62', 'MC_base62', False)],
+        lambda t, s: [['ticket', '--thorough', th, '--seed', str(s)],
+                      ['hash', '--thorough', th, '--seed', str(s), '--dir', V.WORK + '/realfs_C15', '--bin', V.REAL_BIN]],
+        'TicketTrace', lambda r: r['kind'] != 'file' or len(r['bytes']) > 0,
+        ['SHA-256 collisions excluded (two different directory trees must get different tickets)', 'an empty file and an empty directory of one name are not told apart (same names, same contents)',
+         'JSON carries bytes as numbers and strings as code points plus their length in bytes; TLC computes SHA-256 (Sha256.tla) and the base-62 form (Base62.tla) itself'],
+        real=True)
+
 def c19(tier, seed):
     return run_sat('C19', tier, seed,
         lambda th: [],
@@ -124,4 +139,4 @@ def realfs_records(tier, seed):
     out = [(inv, rid, save_record('C10', path, rid)) for (inv, rid) in v]
     return n, out
 
-CHECKS = {'C12': c12, 'C13': c13, 'C14': c14, 'C16': c16, 'C19': c19}
+CHECKS = {'C12': c12, 'C13': c13, 'C14': c14, 'C15': c15, 'C16': c16, 'C19': c19}
